@@ -1,9 +1,14 @@
 import Sm9.Proofs.Pow
 import Sm9.Proofs.Consts
+import Sm9.Proofs.FinalExp
 /-!
 # C17 — the F_q¹² tower engine and final exponentiation on every element
-Ring structure of Fq4 = Fq2[v]/(v²−u) and Fq12 = Fq4[w]/(w³−v) on the model's own
-interleaved / Karatsuba products; sparse products; squarings; Frobenius constants.
+Ring and **field** structure of Fq4 = Fq2[v]/(v²−u) and Fq12 = Fq4[w]/(w³−v) on the model's own
+interleaved / Karatsuba products; sparse products; squarings; norm-based inverses; the coded
+Frobenius maps are the power maps x ↦ x^(q^k); `pow(u128)` is exponentiation; **both**
+final-exponentiation routines map every non-zero x to x^((q¹²−1)/r) (and agree on all inputs).
+Not yet a theorem: that the two Miller-loop variants agree up to factors killed by the final
+exponentiation — decided by correspondence (`miller.g2` / `miller.prep` against the textbook loop).
 -/
 namespace Sm9.C17
 
@@ -49,5 +54,33 @@ theorem frobenius_supported (x : Fq12) :
 /-- exponent constants of the two hard-part chains -/
 theorem chain_exponents : Consts.SM9_A3 = 6 * tParam + 5 ∧ Consts.SM9_A2 = 6 * tParam ^ 2 + 1 ∧
     Consts.SM9_NINE = 9 ∧ Consts.SM9_S = tParam := ⟨a3_eq, a2_eq, nine_eq, S_eq⟩
+
+/-- inverses are correct on every non-zero element of every level, `None` exactly for zero -/
+theorem fq2_inverse (x : Fq2) (h : x ≠ 0) : ∃ y, x.inverse = some y ∧ y * x = 1 := Fq2.inverse_correct x h
+theorem fq4_inverse (x : Fq4) (h : x ≠ 0) : ∃ y, x.inverse = some y ∧ y * x = 1 := Fq4.inverse_correct x h
+theorem fq12_inverse (x : Fq12) (h : x ≠ 0) : ∃ y, x.inverse = some y ∧ y * x = 1 := Fq12.inverse_correct x h
+theorem inverse_zero : (0 : Fq4).inverse = none ∧ (0 : Fq12).inverse = none := ⟨Fq4.inverse_zero, Fq12.inverse_zero⟩
+/-- u is not a square in Fq2 and v is not a cube in Fq4: the tower is a tower of fields -/
+theorem tower_irreducible : (∀ s : Fq2, s * s ≠ Fq2.i) ∧ (∀ s : Fq4, s ^ 3 ≠ Fq4.v) := ⟨Fq2.i_not_sq, Fq4.v_not_cube⟩
+theorem cardinalities : Fintype.card Fq2 = q ^ 2 ∧ Fintype.card Fq4 = q ^ 4 ∧ Fintype.card Fq12 = q ^ 12 :=
+  ⟨Fq2.card, Fq4.card, Fq12.card⟩
+/-- every supported Frobenius power is the power map -/
+theorem frobenius_is_power (x : Fq12) :
+    x.frob1 = x ^ q ∧ x.frob2 = x ^ q ^ 2 ∧ x.frob3 = x ^ q ^ 3 ∧ x.frob6 = x ^ q ^ 6 :=
+  ⟨Fq12.frob1_eq_pow x, Fq12.frob2_eq_pow x, Fq12.frob3_eq_pow x, Fq12.frob6_eq_pow x⟩
+theorem frobenius_map_eq_pow (x : Fq12) (k : Nat) (hk : k = 1 ∨ k = 2 ∨ k = 3 ∨ k = 6) :
+    x.frobenius_map k = .ok (x ^ q ^ k) := Fq12.frobenius_map_eq_pow x k hk
+/-- small-exponent powering: fuel 128 suffices for every u128 -/
+theorem pow_u128_eq (x : Fq12) (e : Nat) (he : e < 2 ^ 128) : x.pow_u128 e = x ^ e := Fq12.pow_u128_eq x e he
+/-- both final exponentiations: x ≠ 0 ↦ x^((q¹²−1)/r); zero ↦ None; they agree everywhere -/
+theorem final_exponentiation_eq_pow (x : Fq12) (hx : x ≠ 0) :
+    x.final_exponentiation = .ok (some (x ^ ((q ^ 12 - 1) / r))) := Fq12.final_exponentiation_eq_pow x hx
+theorem final_exp_eq_pow (x : Fq12) (hx : x ≠ 0) :
+    x.final_exp = .ok (some (x ^ ((q ^ 12 - 1) / r))) := Fq12.final_exp_eq_pow x hx
+theorem final_exp_zero : (0 : Fq12).final_exp = .ok none ∧ (0 : Fq12).final_exponentiation = .ok none :=
+  ⟨Fq12.final_exp_zero, Fq12.final_exponentiation_zero⟩
+theorem final_exp_variants_agree (x : Fq12) : x.final_exp = x.final_exponentiation :=
+  Fq12.final_exp_eq_final_exponentiation x
+theorem r_divides : r ∣ q ^ 12 - 1 := Fq12.r_dvd
 
 end Sm9.C17
